@@ -9,15 +9,29 @@ def main(path):
     if 'scenario' in r:
         import scen
         mod = importlib.import_module('p_' + prop.lower())
-        runner = getattr(mod, 'runner', None) or scen.run
+        runner = getattr(mod, 'scenario_runner', None) or getattr(mod, 'runner', None) or scen.run
         res = runner(r['scenario'])
-        orc = getattr(mod, 'oracle', None)
+        orc = getattr(mod, 'scenario_oracle', None) or getattr(mod, 'oracle', None)
         viol = orc(r['scenario'], res) if orc else []
         for e in res.trace[-40:]:
             print('  trace', e)
         print('job threads:', res.job, 'tables empty:', res.empty)
         if viol:
             print('VIOLATION reproduced:', json.dumps(viol[:3], default=str))
+            return 1
+        print('no violation on the current tree (recorded one was: %s)' % json.dumps(r.get('violation'), default=str)[:300])
+        return 0
+    if 'dm14_server_case' in r:
+        import dm14srv
+        case = r['dm14_server_case']
+        case['ops'] = [tuple(o) for o in case['ops']]
+        recs = dm14srv.run_impl(case)
+        viol = [x for x in dm14srv.check_theorems(case, recs, dm14srv.initial_summary(case)) if x[0] == prop]
+        for i, (op, rec) in enumerate(zip(case['ops'], recs)):
+            outs, ret, sm = dm14srv.split_record(rec)
+            print('  op', i, str(op)[:100], '->', outs[:3], ret, {k: v for k, v in dm14srv.decode_summary(sm).items() if k in ('sa', 'state', 'a_state', 'busy', 'addr')})
+        if viol:
+            print('VIOLATION reproduced:', json.dumps(viol[:3], default=str)[:600])
             return 1
         print('no violation on the current tree (recorded one was: %s)' % json.dumps(r.get('violation'), default=str)[:300])
         return 0
